@@ -10,6 +10,8 @@ Import ListNotations.
 From LI Require Import Runtime.Resolve.
 From LI Require Import Runtime.Context.
 From LI Require Import Runtime.ContextProofs.
+From LI Require Import Runtime.ContextAcc.
+From LI Require Import Runtime.ContextAccProofs.
 Open Scope N_scope.
 
 (** forward simulation: for every initial locale, every operation list and every placement of flushes, the arena
@@ -73,3 +75,49 @@ Proof. exact isolation_unwired. Qed.
 (** the executable predicate evaluated by the correspondence check holds of the model's trace, for every history *)
 Theorem C16_spec : forall l0 con ops, spec_C16 l0 con ops (model_trace l0 con ops) = true.
 Proof. exact spec_C16_model. Qed.
+
+(** ** Accessor flavours (Runtime/ContextAcc.v): nine macros x ten kinds of first-argument expression x with/without
+    interpolation arguments.  Extended histories ([xop]) add "create two accessors of flavours fa, fb on handle h" and
+    "mount an effect showing an accessor of flavour f of handle h"; [erase] maps them to the machines above, and
+    observers that can never change (a `td!` over a `Locale` value bound at creation; an effect that reads only
+    untracked) are kept apart as frozen observers. *)
+
+(** forward simulation for every extended history, frozen observers included *)
+Theorem C16_accessor_refines : forall l0 con xops, xmodel_trace l0 con xops = xspec_trace l0 con xops.
+Proof. exact x_refines. Qed.
+
+(** every accessor of every non-frozen flavour (tracked or untracked macro, any kind of context expression, with or
+    without arguments), created on a handle [h] after any history [pre], is rendered at the end of any continuation
+    [post] — sets, untracked sets, flushes, new sub-contexts, ... — as the current locale of [h]'s context *)
+Theorem C16_accessor_reads_current : forall l0 con pre h fa fb post,
+  let a0 := a_run (a_init l0 con) (map erase pre) in
+  (h < a_nh a0)%nat -> fl_frozen fa = false ->
+  let xops := pre ++ XAcc h fa fb :: post in
+  let s := fst (xc_run (c_init l0 con, []) xops) in
+  let a := a_run (a_init l0 con) (map erase xops) in
+  let k := a_nacc a0 in
+  (k < c_nacc s)%nat /\ a_acc a k = a_hctx a0 h /\ c_ar s (c_acc s k) = a_loc a (a_hctx a0 h).
+Proof. exact accessor_reads_current. Qed.
+
+(** after a flush every mounted effect of a tracked flavour shows the content of its context's signal, unless the
+    last change of that context was a `set_locale_untracked` (which by design re-runs nothing) *)
+Theorem C16_mounted_current : forall l0 con xops,
+  let ops := map erase xops ++ [OFlush] in
+  let k := k_run (k_init l0 con) ops in
+  let s := c_run (c_init l0 con) ops in
+  forall w, (w < c_nw s)%nat -> k_silent k (a_wctx (k_a k) w) = false ->
+  fst (c_wm s w) = c_ar s (c_wsig s w).
+Proof. exact mounted_current. Qed.
+
+(** a frozen observer created on handle [h] shows for ever what [h] read when it was created *)
+Theorem C16_frozen_observer : forall l0 con pre x h post,
+  freezes x = Some h ->
+  let xs0 := xc_run (c_init l0 con, []) pre in
+  (h < c_nh (fst xs0))%nat ->
+  nth_error (snd (xc_run (c_init l0 con, []) (pre ++ x :: post))) (length (snd xs0))
+  = Some (c_ar (fst xs0) (c_hsig (fst xs0) h)).
+Proof. exact frozen_observer. Qed.
+
+(** the predicate evaluated by the correspondence check holds of the extended model's trace, for every history *)
+Theorem C16_accessor_spec : forall l0 con xops, xspec_C16 l0 con xops (xmodel_trace l0 con xops) = true.
+Proof. exact xspec_model. Qed.
